@@ -37,6 +37,7 @@ fn opts(tier: Tier) -> GenOpts {
         strata: [8, 0, 1, 1],
         precedence: false,
         avoid_insert: false,
+        pad_tokens: false,
     }
 }
 
